@@ -165,7 +165,7 @@ BUDGET = {  # (leaves, two-leaf formulas, size-3 formulas, calls per formula, st
     ("thorough", "F1t"): (None, None, 40, None, 64), ("quick", "F1t"): (8, 10, 3, None, 32),
     ("thorough", "F1u"): (None, 300, 40, None, 64), ("quick", "F1u"): (6, 8, 3, None, 32),
     ("thorough", "F2none"): (None, 200, 40, 2, 64), ("quick", "F2none"): (8, 10, 3, 1, 32),
-    ("thorough", "F0constnone"): (None, None, 40, None, 64), ("quick", "F0constnone"): (10, 12, 3, None, 32),
+    ("thorough", "F0constnone"): (None, 300, 40, None, 64), ("quick", "F0constnone"): (10, 12, 3, None, 32),
     ("thorough", "F0const0none"): (None, None, 20, None, 64), ("quick", "F0const0none"): (None, 6, 2, None, 32),
     ("quick", "Fbound_1"): (None, 6, 0, 2, 81), ("quick", "Fbound_0.001"): (None, 4, 0, 1, 81), ("quick", "Fbound_1000"): (None, 4, 0, 1, 81),
     ("thorough", "Fbound_1"): (None, 40, 0, None, 400), ("thorough", "Fbound_0.001"): (None, 40, 0, None, 400),
@@ -759,7 +759,7 @@ def generated_worlds(rng, tier):
         worlds.append(build_alias_b(rng, n_states=3, calls_per_action=4))
     for _ in range({"quick": 8, "thorough": 60}[tier]):
         worlds.append(gen_keyed_world(rng))
-    for _ in range({"quick": 20, "thorough": 240}[tier]):
+    for _ in range({"quick": 20, "thorough": 120}[tier]):
         worlds.append(gen_boundary_world(rng))
     # the same probes through Operators built without an object table: worlds with a universal precondition first
     usable = [wd for wd in worlds if not wd.get("keyed") and wd["probes"]]
@@ -769,7 +769,7 @@ def generated_worlds(rng, tier):
     cands = []
     for i in range(max(len(x) for x in streams)):        # two with a universal precondition (boundary table / ordinary), then one without
         cands += [x[i] for x in streams[:2] if i < len(x)] + ([streams[2][i // 2]] if i % 2 == 0 and i // 2 < len(streams[2]) else [])
-    worlds += [noobj_copy(wd) for wd in cands[:{"quick": 12, "thorough": 150}[tier]]]
+    worlds += [noobj_copy(wd) for wd in cands[:{"quick": 12, "thorough": 80}[tier]]]
     return worlds
 
 
@@ -833,7 +833,7 @@ def run(args):
     else:
         worlds = corpus_worlds() + generated_worlds(rng, args.tier)
         jobs, exhaustive = scope_jobs(rng, args.tier)
-        seqs = [build_sequence_b(rng, rng.randint(3, 6)) for _ in range({"quick": 16, "thorough": 150}[args.tier])]
+        seqs = [build_sequence_b(rng, rng.randint(3, 6)) for _ in range({"quick": 16, "thorough": 60}[args.tier])]
     hashseeds = [0] if args.tier == "quick" else [0, 1, 2]
 
     stats = {"worlds": 0, "world_probes": 0, "world_app_true": 0, "world_app_false": 0, "world_app_raised": 0,
@@ -922,9 +922,12 @@ def run(args):
         stats["fixtures"] = len(fw)
     phase("fixtures (implementation)")
     for si, hs in enumerate(hashseeds):
-        results_w = run_worlds_c02(worlds, hashseed=hs)
+        # every hash seed: corpus, ordinary and alias worlds (the library's sets are hash-ordered); first hash seed only (budget): the
+        # keyed, boundary and no-object-table worlds, the sequences and the fixtures
+        worlds_hs = worlds if si == 0 else [wd for wd in worlds if not (wd.get("keyed") or wd.get("boundary") or wd.get("noobj"))]
+        results_w = run_worlds_c02(worlds_hs, hashseed=hs)
         sw, sr = [], []
-        if seqs:
+        if seqs and si == 0:                 # the sequences run under the first hash seed only (budget)
             jobs_q = [dict({k: v for k, v in q.items() if k != "state_values"}, op="c20.sequence") for q in seqs]
             for seq, res in zip(seqs, run_impl(jobs_q, hashseed=hs)):
                 ws1, rs1, edits = sequence_worlds_b(seq, res)
@@ -948,7 +951,7 @@ def run(args):
                             last[key] = (pr["epoch"], ob["app"])
         phase("worlds and sequences (implementation)")
         # one stream: generated worlds, the epochs of the sequences and (first hash seed) the shipped fixtures
-        world_stream(hs, worlds + sw + (fw if si == 0 else []), results_w + sr + (fr if si == 0 else []), si == 0)
+        world_stream(hs, worlds_hs + sw + (fw if si == 0 else []), results_w + sr + (fr if si == 0 else []), si == 0)
         phase("worlds, sequences, fixtures (Coq)")
 
     # ---- scope
@@ -1038,18 +1041,19 @@ def run(args):
         "Wave 3: BOUNDARY OBJECT TABLES -- scope families F0empty (no object, no constant; actions without parameters, every forall vacuous), F0const / "
         "F0const0 (no object, constant k - u; with two parameters / none), F0const2 (no object, constants k - u and k2 - t), F0constT (no object, one constant of "
         "the upper type: forall over u vacuous), F1t / F1u (one object; type u without / with an inhabitant): thorough = all leaves and all two-leaf formulas x all "
-        "calls for F0empty F0const F0const0 F1t (sampled two-leaf formulas for the others); F2none / F0constnone / F0const0none: the same universes with Operators "
+        "calls for F0empty F0const F0const0 F1t F0const0none (sampled two-leaf formulas for the others); F2none / F0constnone / F0const0none: the same universes with Operators "
         "built WITHOUT an object table (problem_objects=None is not the empty table {}: there a universal condition counts as true -- oracle = the precondition with "
         "every forall erased, Corr.C02.erase_forall; model = is_applicable .. None); four more forall leaves in every family: a forall nested in a forall with two "
-        "variables, with the SAME variable twice, with the name of the parameter ?y twice, and an inner variable named like ?y.  Generated worlds: 20 (quick) / 240 "
+        "variables, with the SAME variable twice, with the name of the parameter ?y twice, and an inner variable named like ?y.  Generated worlds: 20 (quick) / 120 "
         "(thorough) boundary worlds -- a fresh leaf type tq whose inhabitants the generator controls (none at all / constants only / one object / object and "
         "constant) under an empty, a one-element or an ordinary object table, universal preconditions over tq (plain, below an or, around / inside another "
         "quantifier, the same variable name twice) and a forall-when effect over tq, calls binding constants where there is no object (counted per mode in "
         "boundary_probes); one ordinary world in six has 0 or 1 objects; half of the universal conditions of the ordinary worlds get a nested universal condition "
-        "(half of those reuse the variable name); 12 / 150 worlds are answered again by Operators built with problem_objects=None.  PROCESS-LEVEL SEQUENCES "
-        "(16 / 150 worlds): one parsed Domain whose Action objects are edited in place through the library's API between applicability queries (add / remove a "
+        "(half of those reuse the variable name); 12 / 80 worlds are answered again by Operators built with problem_objects=None.  PROCESS-LEVEL SEQUENCES "
+        "(16 / 60 worlds): one parsed Domain whose Action objects are edited in place through the library's API between applicability queries (add / remove a "
         "precondition literal, a nested group, a numeric condition, effects, change_signature and back; fresh Operator or the same Operator object re-grounded); "
-        "every answer is judged against the schema re-dumped from the live Action objects at that moment (counted: sequence_*).  "
+        "every answer is judged against the schema re-dumped from the live Action objects at that moment (counted: sequence_*).  Thorough tier: corpus, "
+        "ordinary and alias worlds under three hash seeds; keyed, boundary and no-object-table worlds, sequences and fixtures under the first one.  "
         "A probe is non-trivial when its formula has >= 2 connectives and (scope) the run contains both a true and a false "
         "instance of that formula / (worlds) the state has facts; distinct by input hash.")
     cov["samples"] = [m["formula"] for j in jobs[:2] for m in j["meta"][:2]] + [acc["sample"]]
